@@ -602,12 +602,12 @@ func (Engine) Execute(run *simcore.Run) {
 			}
 			run.Event(st.Op, "ok")
 			run.Logf("%d %s -> h=%d t=%s hash=%x", i, st.Op, n.Height, n.Time.Sub(simchain.GenesisTime), n.LastAppHash[:6])
-			if !w.invariants("block") {
+			if !w.invariants("block") && run.Stop() {
 				return
 			}
 			continue
 		case "probe":
-			if !w.probe(i, st) {
+			if !w.probe(i, st) && run.Stop() {
 				return
 			}
 			continue
@@ -626,7 +626,8 @@ func (Engine) Execute(run *simcore.Run) {
 			run.Logf("%d %s skip", i, st.Op)
 			continue
 		}
-		if !w.deliver(i, st, m) {
+		// a failure of the property that is not being checked does not end the run
+		if !w.deliver(i, st, m) && run.Stop() {
 			return
 		}
 	}
@@ -1152,12 +1153,12 @@ func (w *world) deliver(i int, st simcore.Step, b *built) bool {
 			}
 		}
 		post := w.snapshot(n.Ctx)
-		if !w.ledger(st.Op, b, pre, post) {
+		if !w.ledger(st.Op, b, pre, post) && run.Stop() {
 			return false
 		}
 		{
 			postPools := w.readPools(n.Ctx)
-			if _, ok := w.replay(st.Op, b.kind, prePools, postPools, parseOps(append(append([]abci.Event(nil), res.Events...), res.Resp.Events...)), n.Ctx); !ok {
+			if _, ok := w.replay(st.Op, b.kind, prePools, postPools, parseOps(append(append([]abci.Event(nil), res.Events...), res.Resp.Events...)), n.Ctx); !ok && run.Stop() {
 				return false
 			}
 		}
@@ -1174,10 +1175,12 @@ func (w *world) deliver(i int, st simcore.Step, b *built) bool {
 		}
 		if got := n.Digest(n.Ctx, "bank", "gamm", "poolmanager"); got != dg {
 			run.Fail("C02", "failed-message-changed-state", st.Op, "%s ended as %s (%v) but the bank/gamm/poolmanager stores changed: digest %s -> %s", st.Op, res.Outcome, res.Err, dg, got)
-			return false
+			if run.Stop() {
+				return false
+			}
 		}
 	}
-	if !w.invariants(st.Op) {
+	if !w.invariants(st.Op) && run.Stop() {
 		return false
 	}
 	if w.mismatch != "" {
